@@ -257,3 +257,22 @@ Example ex_f8_repaired :
 Proof.
   vm_compute. repeat split. intros e [<-|[<-|[]]]; reflexivity.
 Qed.
+
+(* the same, literally against C15_inv: the state reached with the unrepaired step does not satisfy
+   UInv (so no proof of [step_UInv] could have covered that step) *)
+Example ex_f8_legacy_not_UInv :
+  ~ UInv (exec (late_legacy (exec ex_t0 ex_f8_prefix) ex_x 2 22 0%Z) [EApply []]).
+Proof.
+  intros H.
+  set (s := exec (late_legacy (exec ex_t0 ex_f8_prefix) ex_x 2 22 0%Z) [EApply []]) in *.
+  assert (E : exists u, nth_error (us s) 0 = Some u) by (vm_compute; eauto).
+  destruct E as (u & Hu).
+  assert (F : (uph u, upend u, uerr u, ufrom u, useen u) = (PLive, None, false, Some (1, 11), Some (1, 11))
+              /\ un u = ex_x /\ flag_of (st s) 0 = false /\ cur (st s) ex_x = Some (2, 22)).
+  { vm_compute in Hu. injection Hu as <-. vm_compute. repeat split. }
+  destruct F as (F1 & F2 & F3 & F4). injection F1 as P Px Er Fr Sn.
+  destruct (C15_inv N s 0 u H Hu P Px) as (_ & [A|[(_ & A)|(A & _)]]).
+  - rewrite F3 in A. discriminate.
+  - rewrite F2, F4, Fr in A. discriminate.
+  - rewrite Er in A. discriminate.
+Qed.
